@@ -7,6 +7,10 @@ CONSTANTS
   E = 3
   LAST_WINS = FALSE
   SORT_OBJ_ONLY = FALSE
+  BLOCK = 1
+  TAIL_COUNT = FALSE
+  START_INT = TRUE
+  KEEP_DTYPE = FALSE
   DROP_SETT = FALSE
 INVARIANT NoBad
 INVARIANT GvUsesOwnTranslation
@@ -16,6 +20,7 @@ INVARIANT TolOneOnlyInSimplex
 INVARIANT SavedWithOwn
 INVARIANT EachGrainOncePerPass
 INVARIANT BestOwner
+INVARIANT StoredIsFitted
 INVARIANT StoredError
 INVARIANT OrderIndependent
 INVARIANT IndIsOwned
